@@ -19,7 +19,9 @@
 (***************************************************************************)
 EXTENDS Grammar, ParseSteps, Json
 CONSTANTS E,          \* evaluator
-          Nc, Np,     \* longest context / piece (tokens)
+          Mode,       \* "plug": C[(X)] as above;  "join": X op Y - two pieces joined by a binary operator, no brackets added
+                      \*  (all interplay of the operators of X, op and Y: the grouping is ParseFn's, checked against the capture-chain rule)
+          Nc, Np,     \* longest context / piece (tokens); in join mode Nc bounds the right-hand piece
           MaxDepth,   \* number of composition steps
           MaxToks,    \* longest composite (tokens)
           EmitOn
@@ -43,13 +45,22 @@ Enclose(c) == /\ Len(c) + Len(cur) + 1 <= MaxToks
               /\ cur' = Plug(c, FirstAns(c), cur)
               /\ lastc' = c /\ inner' = cur
               /\ depth' = depth + 1
-Next == depth < MaxDepth /\ \E c \in Ctxs : Enclose(c)
+RightPieces == {t \in SeqsUpTo(Nc) : Good(t)}
+JoinWith(op, y) == /\ Len(cur) + Len(y) + 1 <= MaxToks
+                   /\ cur' = cur \o <<op>> \o y
+                   /\ lastc' = <<op>> /\ inner' = y
+                   /\ depth' = depth + 1
+Next == /\ depth < MaxDepth
+        /\ IF Mode = "join" THEN \E op \in BinOps \cap K : \E y \in RightPieces : JoinWith(op, y)
+                            ELSE \E c \in Ctxs : Enclose(c)
 
 P == Parse(cur)
 \* the substitution lemma on this step; in particular every composite is accepted
-ComposeOK == depth > 0 =>
+ComposeOK == (depth > 0 /\ Mode = "plug") =>
                /\ P.ok
                /\ Er(P.node) = ErSub(Parse(lastc).node, FirstAns(lastc), Er(Parse(inner).node))
+\* two expressions joined by a binary operator form an expression (whatever the operators inside them)
+JoinOK == (depth > 0 /\ Mode = "join") => P.ok
 \* the independent formulations agree on composites too (C03, C04 beyond the bound of MCGrammar)
 ComposeAgree == P.ok = Rec(cur)
 ComposeTree == (P.ok /\ JuxFree(cur)) => P.node = RTree(cur, 1, Len(cur))
